@@ -186,3 +186,15 @@ Example C04_cargo_dotted_path_refuted :
   let d := [ITable [w_dependencies] [([[102;111;111]; w_path], TStr [46;46;47;102;111;111]); ([[102;111;111]; w_version], TStr [49;46;50;46;51])]] in
   cargo_known d = true /\ declared_cargo d = [].
 Proof. vm_compute. repeat split. Qed.
+
+(* ... and with C06's totality theorem: on trees tree-sitter can produce (every node can be sliced) the walk does return *)
+From VL Require Import Proofs.TotalProofs.
+Theorem C04_github_actions_total :
+  forall content root v,
+  tree_forall (node_safe content) root = true ->
+  denote_yaml content root = Some v -> gha_regular v = true -> gha_known v = false ->
+  exists pkgs, walk_gha content root = Some pkgs /\ map nh pkgs = declared_gha v.
+Proof.
+  intros content root v Hs Hd Hr Hk. destruct (workflow_total content root Hs) as [pkgs E]. exists pkgs. split; [exact E|].
+  exact (gha_exact content root v Hd Hr Hk pkgs E).
+Qed.
